@@ -37,6 +37,7 @@ type altCase struct {
 	Chunk  int // this case covers the positions p with p % NChunk == Chunk
 	NChunk int
 	Full   bool // all 255 substitution values instead of about 12
+	Sample int  // > 1: only every Sample-th position, except the outer AlgorithmIdentifier, the head of the signature BIT STRING (unused-bits octet, DER head of the signature) and its last two octets (slow signer types)
 	Pos    int  // >= 0: only this position (for hand-made replays)
 }
 
@@ -111,7 +112,7 @@ func buildAltObjectOnce(c altCase) (*altObject, error) {
 		}
 		t := richCertTemplate(c.Rich, c.Seed)
 		t.SignatureAlgorithm = sigAlgFor(c.KT, int(c.Seed%4))
-		subj := newKey(c.SubjKT, c.Seed+1, c.KT == kRSA || c.KT == kRSAPSS)
+		subj := subjectKey(c.SubjKT, c.Seed+1, iss.key)
 		der, err := smx509.CreateCertificate(rnd, t, iss.cert, subj.Public(), iss.key)
 		if err != nil {
 			return nil, fmt.Errorf("CreateCertificate: %v", err)
@@ -257,6 +258,8 @@ func checkAlteration(c altCase, r *h.Rec) error {
 			}
 		} else if pos%nch != c.Chunk || (pos/nch)%stride != int(c.Seed%uint64(stride)) {
 			continue
+		} else if c.Sample > 1 && (pos/nch)%c.Sample != int(c.Seed>>8%uint64(c.Sample)) && !(pos >= so.algOff && pos < so.sigOff+4) && pos < so.sigEnd-2 {
+			continue
 		}
 		nPos++
 		// The whole content of the signatureValue BIT STRING is "the signature":
@@ -313,6 +316,9 @@ func checkAlteration(c altCase, r *h.Rec) error {
 	if nBenign > 0 {
 		r.Label("alter-had-benign-outer-change")
 	}
+	if c.Sample > 1 {
+		r.Label("alter-positions-sampled-slow-signer")
+	}
 	if nUnusedReached > 0 {
 		r.Label("alter-unused-bits-octet-reached-signature-check")
 	}
@@ -322,17 +328,30 @@ func checkAlteration(c altCase, r *h.Rec) error {
 
 // altPlan lists the objects of one tier. Every signer key type appears with
 // every object kind; certificates also mix SM2 and non-SM2 subject keys.
-func altPlan(signers []int, objsPerCombo int, nchunk int, full func(rep int) bool, emit func(altCase)) {
+func altPlan(signers []int, objsPerCombo int, nchunk int, full func(rep int) bool, emit func(altCase), objs ...int) {
+	altPlanSampled(signers, objsPerCombo, nchunk, 0, full, emit, objs...)
+}
+
+func altPlanSampled(signers []int, objsPerCombo int, nchunk, sample int, full func(rep int) bool, emit func(altCase), objs ...int) {
 	for rep := 0; rep < objsPerCombo; rep++ {
 		for _, kt := range signers {
 			for obj := 0; obj < nAltObjs; obj++ {
-				if obj == altCFCA && kt != kSM2 && kt != kRSA && kt != kRSAPSS {
+				if obj == altCFCA && kt != kSM2 && !isRSA(kt) {
 					continue
+				}
+				if len(objs) > 0 {
+					wanted := false
+					for _, o := range objs {
+						wanted = wanted || o == obj
+					}
+					if !wanted {
+						continue
+					}
 				}
 				seed := gen.Mix(h.Seed, uint64(rep), uint64(kt), uint64(obj), 0xa1)
 				subj := []int{kSM2, kP256, kRSA, kEd25519, kP384}[(rep+kt+obj)%5]
 				for ch := 0; ch < nchunk; ch++ {
-					emit(altCase{Obj: obj, KT: kt, SubjKT: subj, Rich: (rep + obj + kt) % 3, Seed: seed, Chunk: ch, NChunk: nchunk, Full: full(rep), Pos: -1})
+					emit(altCase{Obj: obj, KT: kt, SubjKT: subj, Rich: (rep + obj + kt) % 3, Seed: seed, Chunk: ch, NChunk: nchunk, Full: full(rep), Sample: sample, Pos: -1})
 				}
 			}
 		}
@@ -354,6 +373,22 @@ func TestC15_AlterEC(t *testing.T) {
 func TestC15_AlterP384(t *testing.T) {
 	h.Sweep(t, h.P{Name: "alter-p384"}, func(emit func(altCase)) {
 		altPlan([]int{kP384}, h.Scale(1, 3), 6, func(int) bool { return false }, emit) // P-384 verification is slow: about 12 values per position in both tiers
+	}, checkAlteration)
+}
+
+// A sample per further signer type: ECDSA on P-224 and P-521 (66-byte
+// coordinates and r, s), the 1024-bit RSA key with PKCS#1 v1.5 and PSS.
+func TestC15_AlterMoreSigners(t *testing.T) {
+	h.Sweep(t, h.P{Name: "alter-more-signers"}, func(emit func(altCase)) {
+		reps := h.Scale(1, 2)
+		// the slow curves: every 3rd / 8th position plus the outer AlgorithmIdentifier, the head and the tail of the signature BIT STRING
+		altPlanSampled([]int{kP224}, reps, 4, 3, func(int) bool { return false }, emit, altCert, altCRL)
+		altPlanSampled([]int{kP521}, reps, 4, 8, func(int) bool { return false }, emit, altCert)
+		altPlan([]int{kRSA1024}, reps, 4, func(int) bool { return false }, emit, altCSR)
+		altPlan([]int{kRSA1024PSS}, reps, 4, func(int) bool { return false }, emit, altCRL)
+		if h.Thorough() {
+			altPlanSampled([]int{kP521}, 1, 6, 2, func(int) bool { return false }, emit, altCert, altCSR, altCRL)
+		}
 	}, checkAlteration)
 }
 
